@@ -1072,7 +1072,12 @@ static void build_expr(WorkList *list, ASTNode *expr, Environment *env) {
                                     emit_literal(list, "assert(false && \"string arrays only support +\"); ");
                                 }
                             } else {
-                                if (left_is_array) {
+                                if (elem == TYPE_INT && (op == TOKEN_SLASH || op == TOKEN_PERCENT)) {
+                                    /* as for scalars and for array / array: INT64_MIN / -1 and % -1 wrap */
+                                    emit_formatted(list, "dyn_array_push_%s(_out, %s(%s)); ", push_suffix,
+                                                   op == TOKEN_SLASH ? "nl_idiv" : "nl_imod",
+                                                   left_is_array ? "_x, _s" : "_s, _x");
+                                } else if (left_is_array) {
                                     emit_formatted(list, "dyn_array_push_%s(_out, _x %s _s); ", push_suffix, op_str);
                                 } else {
                                     emit_formatted(list, "dyn_array_push_%s(_out, _s %s _x); ", push_suffix, op_str);
